@@ -231,6 +231,7 @@ structure Fld where
   len : Bool := false
   sep : Bool := false
   sepStr : Bool := false
+  dur : Bool := false
 deriving Repr, Inhabited
 
 structure Item where
@@ -248,10 +249,12 @@ structure Item where
   intoResp : Bool := false
   params : List Name := []
   bytesBody : Bool := false
+  optBody : Bool := false
 deriving Repr, Inhabited
 
 structure Mod where
   mode : Name
+  visFile : Bool := false               -- `--visibility file`
   schemas : List Name                   -- component schema names of the spec
   items : List Item
   imports : List (Name × List Name)     -- per file: identifiers of its `use` trees
@@ -270,6 +273,9 @@ inductive Viol
   | sepNonString (item : Name)
   | evstreamJson (item : Name)
   | serverBytesBody (item : Name)
+  | serverOptBody (item : Name)
+  | serverDurationHeader (item : Name)
+  | aliasCycle (item : Name)
   | missingImport (name : Name)
 deriving DecidableEq, Repr
 
@@ -316,6 +322,19 @@ def validateViols (m : Mod) : List Viol :=
     (if fd.nested then fd.refs.flatMap fun r => if !r.map && !capable m (·.val) 4 r.to then [Viol.nestedNoValidate it.name r.to] else [] else []) ++
     (if fd.len then fd.refs.flatMap fun r => if r.vec && !r.map && !capable m (·.ser) 4 r.to then [Viol.lengthNeedsSer it.name r.to] else [] else [])
 
+def endsWith (s suf : Name) : Bool := (s.drop (s.length - suf.length)) == suf && suf.length ≤ s.length
+
+def isHeaderStruct (n : Name) : Bool := endsWith n "RequestHeader".toList
+
+/-- does the alias chain starting at `n` lead back to `target`? -/
+def aliasReach (m : Mod) (target : Name) : Nat → Name → Bool
+  | 0, _ => false
+  | f + 1, n =>
+    n == target ||
+    match m.find n with
+    | some it => it.kind == "alias".toList && it.fields.any fun fd => fd.refs.any fun r => aliasReach m target f r.to
+    | none => false
+
 def shapeViols (m : Mod) : List Viol :=
   (m.items.flatMap fun it =>
     (if it.kind == "ctor".toList && hasDup it.params then [Viol.dupParam it.name] else []) ++
@@ -323,7 +342,10 @@ def shapeViols (m : Mod) : List Viol :=
     (if it.kind == "enum".toList && hasDup it.variants then [Viol.dupMember it.name] else []) ++
     (if it.kind == "struct".toList && it.fields.any (fun fd => fd.sep && !fd.sepStr) then [Viol.sepNonString it.name] else []) ++
     (if it.kind == "enum".toList && it.intoResp && it.evstream then [Viol.evstreamJson it.name] else []) ++
-    (if it.kind == "fn".toList && it.file == "server".toList && it.bytesBody then [Viol.serverBytesBody it.name] else [])) ++
+    (if it.kind == "fn".toList && it.file == "server".toList && it.bytesBody then [Viol.serverBytesBody it.name] else []) ++
+    (if it.kind == "fn".toList && it.file == "server".toList && it.optBody then [Viol.serverOptBody it.name] else []) ++
+    (if it.kind == "struct".toList && m.mode == "server-mod".toList && isHeaderStruct it.name && it.fields.any (·.dur) then [Viol.serverDurationHeader it.name] else []) ++
+    (if it.kind == "alias".toList && it.fields.any (fun fd => fd.refs.any fun r => aliasReach m it.name 6 r.to) then [Viol.aliasCycle it.name] else [])) ++
   ((m.types.map (·.name)).filter (fun n => (m.types.filter (·.name == n)).length > 1)).eraseDups.map Viol.dupItem ++
   (((m.types.filter (·.file == "types".toList)).flatMap (·.bare)).eraseDups.filter
     (fun d => (d == "Serialize".toList || d == "Deserialize".toList || d == "Validate".toList) &&
@@ -339,13 +361,16 @@ def WF (m : Mod) : Bool := (violations m).isEmpty
 /-- the class a violation falls in, if it has one of the characterised SHAPES (everything else is unlisted) -/
 def classOf (m : Mod) : Viol → Option String
   | .undefinedType n => if m.schemas.contains n then some "KnownSchemaNotEmitted" else none
-  | .privateAcross _ _ => some "KnownFileVisModule"
+  | .privateAcross _ _ => if m.visFile then some "KnownFileVisModule" else none
   | .serde _ _ _ viaMap => if viaMap then some "KnownSerdeMapEdge" else none
   | .lengthNeedsSer _ _ => some "KnownLengthNeedsSerialize"
   | .dupParam _ => some "KnownRequestParamClash"
   | .sepNonString _ => some "KnownSeparatorNonString"
   | .evstreamJson _ => some "KnownServerEventStreamJson"
   | .serverBytesBody _ => some "KnownServerBinaryBody"
+  | .serverOptBody _ => some "KnownServerOptionalBody"
+  | .serverDurationHeader _ => some "KnownServerDurationHeader"
+  | .aliasCycle _ => some "KnownAliasCycle"
   | _ => none
 
 structure RErr where
@@ -373,6 +398,9 @@ def explains : Viol → RErr → Bool
   | .sepNonString it, e => e.ikind == "struct".toList && e.iname == it && codeIn e.code ["E0277", "E0271"]
   | .evstreamJson it, e => e.ikind == "impl".toList && e.iname == it && codeIn e.code ["E0599"]
   | .serverBytesBody it, e => e.ikind == "fn".toList && e.file == "server".toList && e.iname == it && codeIn e.code ["E0308"]
+  | .serverOptBody it, e => e.ikind == "fn".toList && e.file == "server".toList && e.iname == "router".toList && e.name == it && codeIn e.code ["E0277"]
+  | .serverDurationHeader it, e => e.ikind == "impl".toList && e.iname == it && e.name == "TimeDelta".toList && codeIn e.code ["E0277"]
+  | .aliasCycle it, e => e.ikind == "type".toList && e.iname == it && codeIn e.code ["E0391"]
   | .missingImport n, e => codeIn e.code ["E0404", "E0405", "E0432", "cannot find derive macro"] && e.name == n
 
 structure Verdict where
